@@ -30,7 +30,9 @@ SPEC = dict(
         "C27_transitions_table by `decide`; C27_ack_sites: MarkSynced is called only on reconcile-present / "
         "Done(); C27_recover_every_pass: Agent.Run itself calls RecoverInFlight first, unconditionally, on every pass — so "
         "the model does not distinguish a fresh Agent from a long-lived one; C27_stale_from_candidates: confirmPresent "
-        "forgets only paths drawn from the checked candidates). Hub object of one (spoke,path) under ALL histories of Receive calls with arbitrary offset/body "
+        "forgets only paths drawn from the checked candidates; C27_receipt_before_exists: Receive checks the compacted "
+        "receipt before file existence — used by the lemma `stamp_step`: a compaction job's stamp survives every upload / "
+        "reconcile between the mark and the deferred source deletion). Hub object of one (spoke,path) under ALL histories of Receive calls with arbitrary offset/body "
         "(= all transport faults and spoke behaviours), reconciles, compactions, sweeps, deletions: C27_hub_content "
         "(final bytes = spoke bytes), C27_synced_sound (an acknowledgment implies the hub holds identical content or "
         "the compacted receipt, and keeps holding it until a genuine removal / foreign writer), C27_hub_once_partial "
@@ -42,7 +44,7 @@ SPEC = dict(
         "Receiver + HubIndex + Reconciler are diffed against the model (ledger rows, trigger-recorded transition log, "
         "hub files/staging/.part/receipts, run counters) on a fault x crash grid (each cancelled pass continued both on the SAME long-lived Agent and "
         "as a restarted process), all 64 mixed 3-entry reconcile batches (no / fresh / stale / compacted receipt in every "
-        "order) and random histories of <= 6 runs, the fault-free closing passes running on the same Agent or a fresh one, and every clause is monitored directly on the real code."
+        "order), a compaction-window grid (mark … redeliveries / passes … source deletion … redeliveries / passes) and random histories of <= 6 runs, the fault-free closing passes running on the same Agent or a fresh one, and every clause is monitored directly on the real code."
     ),
     level_note="proof (partial): hub_once only under carve-out (finding); terminates per file; world-level composition validated by correspondence",
     technique="Lean 4 invariant proofs over an executable model of ledger + agent + receiver + reconciler; transition table regenerated from the SQL literals; differential correspondence of real Agent/Ledger(SQLite)/Receiver/HubIndex under scripted faults and crashes",
